@@ -36,3 +36,13 @@ pub fn run(tier: Tier, seed: u64, ev: &mut Evidence) -> Vec<Violation> {
 pub fn replay(case: &Value) -> Result<Option<Violation>, String> {
     crate::props::gcsearch::replay(Attribution::C03, case)
 }
+
+pub fn rerun(_tier: Tier, seed: u64, run: u64) -> Option<Violation> {
+    let workload: fn(&mut crate::rng::Rng) -> (Vec<String>, String) = match run / 1_000_000 {
+        0 => workload_g01,
+        1 => workload_templates,
+        2 => workload_g05,
+        _ => workload_g02,
+    };
+    one_run(Attribution::C03, seed, run, workload, 3).violation
+}
